@@ -482,6 +482,7 @@ class Registry:
         self.loops = {}          # (target, ordinal) -> LoopSpec
         self.inline = set()      # targets that may be inlined
         self.ctor = {}           # class qual -> contract
+        self.descriptor_contracts = {}   # (class qual, attr) -> contract
         self.missing = []
 
     def add(self, c):
@@ -523,6 +524,9 @@ class Registry:
         raise Unsupported("no contract variant of %s::%s matches this call" % (fi.file, fi.qual))
 
     def find_descriptor_contract(self, ci, attr):
+        for c in ci.mro:
+            if (c.qual, attr) in self.descriptor_contracts:
+                return self.descriptor_contracts[(c.qual, attr)]
         return None
 
     def find_constructor(self, ci):
